@@ -186,9 +186,18 @@ func runC03(p *core.Program, r *core.Report) {
 
 	// Push returns only when the scan over its arguments is exhausted (no side path that handles
 	// the arguments differently)
+	var pushScanHeader *ssa.BasicBlock
+	{
+		x := newPathCtx(p)
+		for _, rd := range elemReads(fPush, fPush.Params[1]) {
+			if sc, ok := classifyScan(x, fPush, rd.idx, fPush.Params[1]); ok {
+				pushScanHeader = sc.header
+			}
+		}
+	}
 	for _, b := range fPush.Blocks {
 		if rt, ok := b.Instrs[len(b.Instrs)-1].(*ssa.Return); ok {
-			c.ob("PT5", p.FuncName(fPush), "returns only after every argument was pushed", p.InstrPos(rt), !path.InCycle(b) && onlyViaLoopHeader(fPush, b) && loopDepth(fPush, b) == 0 && dominatedByALoopHeader(fPush, b),
+			c.ob("PT5", p.FuncName(fPush), "returns only after every argument was pushed", p.InstrPos(rt), pushScanHeader != nil && pushScanHeader.Dominates(b) && !path.NaturalLoop(pushScanHeader)[b],
 				"Push can return on a path that does not run through the per-argument loop: some calls insert their arguments differently (a bulk path) and the per-element rules do not cover them")
 		}
 	}
